@@ -94,10 +94,25 @@ NamesOverlapping(e) ==
      /\ ~CompatibleLoose(Named(e), StartIdx(tx), MaxAdj(C.cfg))
      /\ \E H \in SUBSET Named(e) : WitnessWith(e, H)
 
+(* recorded finding: the entry names, besides the variants H the peptide carries, the other      *)
+(* member(s) of a merged adjacent pair (--max-adjacent-as-mnv) that lie upstream of the peptide    *)
+(* and that the peptide does not carry                                                             *)
+NamesUnusedPartner(e) ==
+  /\ IdsKnown(e) /\ Len(e.sect) = 0 /\ W2FSet(e) = {}
+  /\ LET tx == TxOf(C.txs[e.tx].tx) IN
+     /\ CompatibleLoose(Named(e), StartIdx(tx), MaxAdj(C.cfg))
+     /\ \E H \in (SUBSET Named(e)) \ {Named(e)} :
+           /\ WitnessWith(e, H)
+           /\ \E pos \in PeptideStarts(tx, H, e.seq) :
+                 \A x \in Named(e) \ H :
+                    /\ \E y \in H : Mergeable(x, y, StartIdx(tx))
+                    /\ EndOnHap(x, H \cup {x}) <= pos
+
 ClassOf(e) ==
   IF MissingFrameshift(e) THEN "missing_frameshift"
   ELSE IF OmitsUpstream(e) THEN "omits_upstream"
   ELSE IF NamesOverlapping(e) THEN "names_overlapping"
+  ELSE IF NamesUnusedPartner(e) THEN "names_unused_partner"
   ELSE IF ContextWitness(e) THEN "context_witness"
   ELSE "no_witness"
 
